@@ -4,4 +4,6 @@ from common import PROLOGUE
 def apply(fc):
     fc.add_prologue(PROLOGUE)
     fc.contract('parse', external_body=True)
+    fc.contract('parse', within='trait AisMessageType', requires=['small(data@.len() as int)'])
+    fc.contract('push_unwrap', ensures=['final(list)@ == old(list)@.push(item)'])
     fc.contract('unarmor', external_body=True)
